@@ -11,7 +11,9 @@ CONSTANTS MaxLeaves,      (* 3 | 4 | 5 leaves in structural trees *)
           StyleMode,      (* 0: four styles; 1: all 32 *)
           ReplVocab,      (* tokens used by Replace edits *)
           BaseMode,       (* 0: few base cases for edits; 1: many *)
-          Depth3Samples   (* number of sampled depth-3 trees per root operator (0 = none) *)
+          Depth3Samples,  (* number of sampled depth-3 trees per root operator (0 = none) *)
+          CP,             (* token text -> code points, for every text the generator can emit *)
+          SepCP           (* code points of the five separators, the leading and the trailing comment *)
 VARIABLES stage, shard, case, ast
 vars == <<stage, shard, case, ast>>
 
@@ -277,5 +279,22 @@ MultiplierOnlyScales == (stage = 2 /\ case.kind = "chain") =>
         /\ \A i \in DOMAIN d.st.rules : /\ d.st.rules[i].ast = u.st.rules[i].ast /\ d.st.rules[i].superiors = u.st.rules[i].superiors
                                         /\ d.st.rules[i].cutoff * case.mult[2] <= u.st.rules[i].cutoff * case.mult[1]
                                         /\ (d.st.rules[i].cutoff + 1) * case.mult[2] > u.st.rules[i].cutoff * case.mult[1]
+(* whitespace and comments are irrelevant: the tokeniser recovers the token texts from the joined text,
+   whatever separators are used (0..4 one separator everywhere, 5 none next to punctuation, 6 rotation
+   plus comment lines around) *)
+SepFor(toks, i, sep) == IF sep <= 4 THEN SepCP[sep + 1]
+                        ELSE IF sep = 5 THEN (IF toks[i] \in Punct \/ toks[i - 1] \in Punct THEN <<>> ELSE <<32>>)
+                        ELSE SepCP[((i - 1) % 5) + 1]
+RECURSIVE JoinFrom(_, _, _)
+JoinFrom(toks, i, sep) == IF i > Len(toks) THEN <<>>
+                          ELSE (IF i > 1 THEN SepFor(toks, i, sep) ELSE <<>>) \o CP[toks[i]] \o JoinFrom(toks, i + 1, sep)
+JoinCP(toks, sep) == IF sep = 6 THEN SepCP[6] \o JoinFrom(toks, 1, sep) \o SepCP[7] ELSE JoinFrom(toks, 1, sep)
+SeparatorsIrrelevant == (stage = 2) =>
+    \A f \in DOMAIN case.files : \A sep \in {case.sep, 4, 5, 6} :
+        Tokenise(JoinCP(case.files[f], sep)) = [i \in DOMAIN case.files[f] |-> CP[case.files[f][i]]]
+(* the closed vocabulary is classified as the lexical grammar classifies its spelling *)
+VocabularyClassified == (stage >= 2) =>
+    \A f \in DOMAIN case.files : \A i \in DOMAIN case.files[f] :
+        LET s == case.files[f][i] IN s \in DOMAIN CP /\ Classify(s, CP[s]) = LexClosed(s)
 (* negative control: a reference parser without precedence (left-to-right) is caught by RoundTrip; see RuleGrammar_MCneg *)
 =============================================================================
